@@ -506,6 +506,10 @@ func checkC03(c *Ctx) (string, []string) {
 				if all {
 					found = true
 				}
+				// a's parity tested on its low bit instead of by remainder
+				if want.name == "a even" && (strings.Contains(s, "(1 & p1)") || strings.Contains(s, "(p1 & 1)")) {
+					found = true
+				}
 			}
 			var list []string
 			for s := range atoms {
